@@ -122,7 +122,8 @@ Definition handshake_events : list event :=
   [CONNECTION_GOT_FIRMWARE_VERSION; CONNECTION_GOT_CHANNEL; CONNECTION_GOT_CONFIG_FILES; CONNECTION_INITIAL_DATA_BLOCK_REQUEST; CONNECTION_SPA_COMPLETE].
 Definition ext_events : list event :=
   [RUNNING_PING_RECEIVED; RUNNING_PING_MISSED; RUNNING_PING_NO_RESPONSE; ERROR_RF_ERROR; ERROR_TOO_MANY_RF_ERRORS;
-   ERROR_PROTOCOL_RETRY_COUNT_EXCEEDED; RUNNING_SPA_PACK_REFRESHED; RUNNING_SPA_WATER_CARE_ERROR].
+   ERROR_PROTOCOL_RETRY_COUNT_EXCEEDED; RUNNING_SPA_PACK_REFRESHED; RUNNING_SPA_WATER_CARE_ERROR;
+   CONNECTION_PROTOCOL_RETRY_COUNT_EXCEEDED (* also raised by the refresh loop when its channel query fails *)].
 
 (* an exception reaches the pump's loop: caught, logged, async_reset (pump_survives) - or the end of the task *)
 Definition raised (s : mst) : mst * list delivery :=
